@@ -903,6 +903,10 @@ func (s *Server) IsBlockedClient(ip netip.Addr, clientID string) (blocked bool, 
 		return false, ""
 	}
 
+	// An IPv4-mapped IPv6 address, e.g. one taken from a forwarding header of
+	// a trusted proxy, denotes the IPv4 client and must match IPv4 entries.
+	ip = ip.Unmap()
+
 	blockedByIP := false
 	if ip != (netip.Addr{}) {
 		blockedByIP, rule = access.isBlockedIP(ip)
